@@ -823,6 +823,44 @@ package gorm
 //@   min-sites 1
 //@   assert key-part-of-the-saved-value: arg1 == reflectValue [C16]
 
+//@ # ---------- C10: Save writes all fields unless the chain itself selected some ----------
+//@ # Omit only narrows "all fields"; it is not a selection. Without "*" the struct update would skip zero values.
+//@ site save-selects-every-field-by-default
+//@   match call gorm.(*callbacks).Update
+//@   in gorm.(*DB).Save
+//@   min-sites 1
+//@   assert some-selection-in-force: len(tx.Statement.Selects) >= 1 [C10]
+//@   assert all-fields-unless-the-chain-selected: selectedUpdate || tx.Statement.Selects[len(tx.Statement.Selects) - 1] == "*" [C10]
+
+//@ # ---------- C02: each chain call adds its conditions as one unit ----------
+//@ # Where adds the conditions as they are (AND), Not negates them as one group, Or adds one OR unit holding the
+//@ # AND-group of everything the call was given.
+//@ site where-adds-the-conditions-as-built
+//@   match call gorm.(*Statement).AddClause
+//@   in gorm.(*DB).Where
+//@   min-sites 1
+//@   assert and-unit: is(arg1, clause.Where) && arg1.(clause.Where).Exprs == conds [C02]
+//@ site not-negates-the-whole-call
+//@   match call clause.Not
+//@   in gorm.(*DB).Not
+//@   min-sites 1
+//@   assert all-conditions-of-the-call: arg0 == conds [C02]
+//@ site or-groups-the-whole-call
+//@   match call clause.And
+//@   in gorm.(*DB).Or
+//@   min-sites 1
+//@   assert all-conditions-of-the-call: arg0 == conds [C02]
+//@ site or-adds-one-or-unit
+//@   match call clause.Or
+//@   in gorm.(*DB).Or
+//@   min-sites 1
+//@   assert single-member: len(arg0) == 1 [C02]
+//@ site not-and-or-add-one-unit
+//@   match call gorm.(*Statement).AddClause
+//@   in gorm.(*DB).Not gorm.(*DB).Or
+//@   min-sites 2
+//@   assert one-unit: is(arg1, clause.Where) && len(arg1.(clause.Where).Exprs) == 1 [C02]
+
 //@ # ---------- C18/C04: a nested block is set up and undone on the caller's handle ----------
 //@ # SAVEPOINT and ROLLBACK TO SAVEPOINT of a nested Transaction carry the same context (and run on the same
 //@ # connection) as the statements of the block: they are issued through the receiver itself.
